@@ -39,6 +39,11 @@ def run(ctx: Ctx):
     from .common import generic_lints
 
     generic_lints(ctx)
+    from . import c05
+
+    # "absent (None) when NO category has a numeric value": a test over the DISPLAYED categories' values turns the
+    # statistic off when the numeric-valued categories are merely hidden or pruned
+    c05.display_reductions(ctx, only=lambda where: "scale" in where.lower() or "numeric_value" in where.lower())
     from .common import dependency_footprints
 
     dependency_footprints(ctx)
